@@ -26,12 +26,12 @@ def main(run: Run) -> int:
     for i, (_t, ks) in enumerate(cs):
         acc += (2 ** len(ks)) * 3
         if acc >= budget or i == n - 1:
-            jobs.append({"fn": "fc_glue", "globals": {"MAXLEAVES": fc_harness.MAXLEAVES, "YMAX": 1, "YMAX_EVERY": 1 if thorough else 2, "LO": lo, "HI": i + 1}, "timeout": 600 + acc, "bound": "expressions of this partition x all truth assignments (symbolic) x with/without error messages x (no yields | the first three keys complete in reverse request order" + ("" if thorough else ", every 2nd expression") + ")"})
+            jobs.append({"fn": "fc_glue", "globals": {"MAXLEAVES": fc_harness.MAXLEAVES, "YMAX": 1, "YMAX_EVERY": 2, "LO": lo, "HI": i + 1}, "timeout": 600 + acc, "bound": "expressions of this partition x all truth assignments (symbolic) x with/without error messages x (no yields | the first three keys complete in reverse request order" + ", every 2nd expression)"})
             lo, acc = i + 1, 0
     jobs.sort(key=lambda j: -j["timeout"])
     for r, j in zip(xh.run_jobs(run, "vf.harness.fc_harness", jobs), jobs):
         xh.default_verdict(run, r, feats, bound=j["bound"])
-    run.bounds["glue"] = f"{n} expressions: every shape with <= {fc_harness.MAXLEAVES} keys x every operator combination x 4 spelling/bracket variants (unbracketed ones exercise precedence), all 2^k truth assignments symbolic"
+    run.bounds["glue"] = f"{n} expressions: every shape with <= {fc_harness.MAXLEAVES} keys x every operator combination x 4 spelling/bracket variants (2 for four keys; unbracketed ones exercise precedence), all 2^k truth assignments symbolic"
     run.bounds["step"] = "operands: fulfilled symbolic bool, message symbolic Optional[str] with invariant 'message is None <=> fulfilled'"
     common_assumptions(run)
     run.outside += ["single constraints that are fulfilled but nevertheless carry an error message (not produced by ahbicht's own evaluators; the statement's proviso does not settle them)", "wording of error messages"]
